@@ -87,15 +87,6 @@ class RedisEnv(PgEnv):
             return [('ret', st, err(e))]
         return super().convert_err(M, st, th, ci, e)
 
-    def t_Iterator__map(s, M, st, th, ci, a): return s.ret(st, Agg('MapIter', [a[0], a[1]]))
-    def t_Iterator__collect(s, M, st, th, ci, a):
-        it = a[0]
-        if isinstance(it, Agg) and it.ty == 'MapIter' and it.f[0].ty == 'SliceIter':
-            src = M.deref(st, it.f[0].f[0])
-            # closure `|url| url.as_str()` over &String elements: the element strings themselves
-            return s.ret(st, Agg('Vec', [sref(x.f[0]) for x in src.items()]))
-        return super().t_Iterator__collect(M, st, th, ci, a)
-    def d_MapIter(s, M, st, th, v): return True
 
 
 def deep_eq(a, b):
